@@ -440,6 +440,56 @@ func genC10(e *emitter) {
 	sort.Strings(signSites)
 	sort.Strings(sharedCallers)
 
+	// key flow: the expression whose strength is tested vs the expression handed to the signer, per path
+	callArg := func(p *pkgInfo, fn, callee string, idx int) string {
+		res := "unknown"
+		if fd := p.funcs[fn]; fd != nil && fd.Body != nil {
+			ast.Inspect(fd.Body, func(n ast.Node) bool {
+				if ce, ok := n.(*ast.CallExpr); ok && p.str(ce.Fun) == callee && idx < len(ce.Args) && res == "unknown" {
+					res = strings.ReplaceAll(p.str(ce.Args[idx]), " ", "")
+				}
+				return true
+			})
+		}
+		return res
+	}
+	fieldRHS := func(p *pkgInfo, fn, lhs string) string {
+		res := "unknown"
+		if fd := p.funcs[fn]; fd != nil && fd.Body != nil {
+			ast.Inspect(fd.Body, func(n ast.Node) bool {
+				if as, ok := n.(*ast.AssignStmt); ok && len(as.Lhs) == 1 && len(as.Rhs) == 1 && p.str(as.Lhs[0]) == lhs {
+					res = p.str(as.Rhs[0])
+				}
+				return true
+			})
+		}
+		return res
+	}
+	type flow struct{ Path, Validated, Signed string }
+	var flows []flow
+	{ // ssh: the helper parses a string; is it its own parameter, i.e. the very string the handler also hands to the signer?
+		parsed := callArg(kmd, "getValidSSHPublicKey", "ssh.ParseAuthorizedKey", 0)
+		parsed = strings.TrimSuffix(strings.TrimPrefix(parsed, "[]byte("), ")")
+		validated := "local:" + parsed
+		if fd := kmd.funcs["getValidSSHPublicKey"]; fd != nil && len(fd.Type.Params.List) == 1 && len(fd.Type.Params.List[0].Names) == 1 &&
+			fd.Type.Params.List[0].Names[0].Name == parsed {
+			validated = callArg(kmd, "postAuthSSHCertHandler", "getValidSSHPublicKey", 0)
+		}
+		flows = append(flows, flow{"ssh", validated, callArg(kmd, "postAuthSSHCertHandler", "certgen.GenSSHCertFileString", 1)})
+	}
+	x509v := callArg(kmd, "postAuthX509CertHandler", "certgen.ValidatePublicKeyStrength", 0)
+	x509s := callArg(kmd, "postAuthX509CertHandler", "certgen.GenUserX509Cert", 1)
+	flows = append(flows, flow{"x509", x509v, x509s}, flow{"x509-kubernetes", x509v, x509s})
+	flows = append(flows, flow{"role-requesting", callArg(kmd, "parseRoleCertGenParams", "certgen.ValidatePublicKeyStrength", 0),
+		fieldRHS(kmd, "parseRoleCertGenParams", "rvalue.UserPub")})
+	flows = append(flows, flow{"role-refresh", callArg(kmd, "parseRefreshRoleCertGenParams", "certgen.ValidatePublicKeyStrength", 0),
+		fieldRHS(kmd, "parseRefreshRoleCertGenParams", "rvalue.UserPub")})
+	flows = append(flows, flow{"aws-role", callArg(aws, "requestHandler", "certgen.ValidatePublicKeyStrength", 0),
+		callArg(aws, "requestHandler", "i.generateRoleCert", 0)})
+	roleSignerArg := callArg(kmd, "withParamsGenerateRoleRequestingCert", "certgen.GenIPRestrictedX509Cert", 1)
+	awsSignerV := callArg(kmd, "generateRoleCert", "certgen.ValidatePublicKeyStrength", 0)
+	awsSignerS := callArg(kmd, "generateRoleCert", "x509.CreateCertificate", 3)
+
 	var b strings.Builder
 	b.WriteString("import KM.Model.KeyTypes\nnamespace KM.Gen.C10\nopen KM.KeyStrength\n\n")
 	opt := func(v int64) string {
@@ -491,8 +541,16 @@ func genC10(e *emitter) {
 		sc = append(sc, chars(s))
 	}
 	fmt.Fprintf(&b, "/-- callers of the shared signing helpers -/\ndef signerCallers : List (List Char) := [%s]\n", strings.Join(sc, ", "))
+	var fl []string
+	for _, f := range flows {
+		fl = append(fl, fmt.Sprintf("(%s, %s, %s)", chars(f.Path), chars(f.Validated), chars(f.Signed)))
+	}
+	fmt.Fprintf(&b, "\n/-- per path: (path, expression whose strength is tested, expression handed on to the signer) -/\ndef keyFlow : List (List Char × List Char × List Char) := [%s]\n", strings.Join(fl, ", "))
+	fmt.Fprintf(&b, "/-- key argument of the signing call inside withParamsGenerateRoleRequestingCert -/\ndef roleSignerKeyArg : List Char := %s\n", chars(roleSignerArg))
+	fmt.Fprintf(&b, "/-- cmd/keymasterd generateRoleCert: expression tested / expression put into the certificate -/\ndef awsSignerFlow : List Char × List Char := (%s, %s)\n", chars(awsSignerV), chars(awsSignerS))
 	b.WriteString("\nend KM.Gen.C10\n")
 	e.lean("C10.lean", b.String())
+	e.facts["c10_key_flow"] = flows
 	e.facts["c10"] = map[string]interface{}{"thresholds": th, "ssh_regex": sshRE, "ssh_key_types": sshTypes, "paths": paths,
 		"aws_signer": signer, "dispatch": dispatch, "sign_sites": signSites, "signer_callers": sharedCallers}
 }
